@@ -52,6 +52,21 @@ theorem lexCmp_eq_zero (x y : Bytes) : lexCmp x y = 0 ↔ x = y := by
             omega
           simp [hab, ih ys]
 
+theorem lexCmp_swap (x y : Bytes) : lexCmp x y = 1 ↔ lexCmp y x = -1 := by
+  induction x generalizing y with
+  | nil => cases y <;> simp [lexCmp]
+  | cons a xs ih =>
+    cases y with
+    | nil => simp [lexCmp]
+    | cons b ys =>
+      simp only [lexCmp, UInt8.lt_iff_toNat_lt]
+      by_cases h1 : a.toNat < b.toNat
+      · have : ¬ b.toNat < a.toNat := by omega
+        simp [h1, this]
+      · by_cases h2 : b.toNat < a.toNat
+        · simp [h1, h2]
+        · simp only [h1, h2, if_false]; exact ih ys
+
 /-! ### big-endian value -/
 
 theorem toNatBE_append_singleton (xs : Bytes) (b : UInt8) :
